@@ -3378,7 +3378,10 @@ impl Connection {
             );
             NewConnectionId {
                 sequence: issued.sequence,
-                retire_prior_to: self.local_cid_state.retire_prior_to(),
+                // A frame queued (or retransmitted) before the latest rotation carries an older
+                // sequence number; "Retire Prior To" must never exceed it, or the peer rejects
+                // the frame as malformed.
+                retire_prior_to: self.local_cid_state.retire_prior_to().min(issued.sequence),
                 id: issued.id,
                 reset_token: issued.reset_token,
             }
